@@ -72,11 +72,11 @@ TOL_FIXED = 1e-2
 
 def plan(tier, seed):
     specs = []
-    reps = 2 if tier == "quick" else 30
+    reps = 2 if tier == "quick" else 100
     for rep in range(reps):
         for shp, ang, pad in itertools.product(SHAPES, ANGLES, PADS):
             specs.append({"kind": "geom", "shape": shp, "angle": ang, "pad": pad})
-    reps = 3 if tier == "quick" else 30
+    reps = 3 if tier == "quick" else 100
     k = 0
     for rep in range(reps):
         for up, K, ang in itertools.product(UPS, [1, 2, 3, 4], ANGLES[:5]):
